@@ -254,9 +254,45 @@ def pat_accepts(pat, scrut, val):
 
 def consistent(path, val):
     """Is the path feasible under the sample valuation?  True / False / None (a decision could not be evaluated)."""
+    return run_path(path, val)[0]
+
+
+def _checked(node, val):
+    """(is_some, value) of `a.checked_sub(b)` / `a.checked_add(b)` under the valuation, or None."""
+    n = H.peel(node) if node is not None else {}
+    if n.get("k") == "MethodCall" and n.get("name") in ("checked_sub", "checked_add") and len(n.get("args") or []) == 1:
+        a, b = eval_node(n["recv"], val), eval_node(n["args"][0], val)
+        if isinstance(a, int) and isinstance(b, int):
+            r = a - b if n["name"] == "checked_sub" else a + b
+            return (0 <= r <= UMAX, r)
+    return None
+
+
+def run_path(path, val):
+    """(feasibility, valuation at the end of the path).  Sampled names are followed through copies, assignments
+    (`=`, `+=`, `-=`) and `checked_sub` / `checked_add` decisions."""
     unknown = False
     val = dict(val)
     for ev in path.events:
+        if ev.kind in ("letcond", "let-else") or (ev.kind == "let" and ev.c is True):
+            nd = ev.node if isinstance(ev.node, dict) else {}
+            init = nd.get("init")
+            ck = _checked(init, val)
+            if ck is not None:
+                took_some = (ev.kind == "letcond" and bool(ev.c)) or (ev.kind == "let")
+                if ev.kind == "letcond" and (ev.a or "") == "None":
+                    took_some = not bool(ev.c)
+                if took_some != ck[0]:
+                    return False, val
+                m_ = re.match(r"^Some\((?:ref |mut )*([a-z_][a-z_0-9]*)\)$", ev.a or "")
+                if took_some and m_:
+                    val[m_.group(1)] = ck[1]
+                continue
+        if ev.kind == "assign" and ev.a in val and isinstance(ev.node, dict) and ev.node.get("r") is not None:
+            r = eval_node(ev.node["r"], val)
+            if isinstance(r, int) and not isinstance(r, bool) and ev.b in ("=", "+=", "-="):
+                val[ev.a] = r if ev.b == "=" else (val[ev.a] + r if ev.b == "+=" else val[ev.a] - r)
+                continue
         if ev.kind == "let" and ev.node is not None and isinstance(ev.node, dict) and ev.node.get("init") is not None \
                 and (ev.node.get("pat") or {}).get("k") == "Binding":
             v = eval_node(ev.node["init"], val)
@@ -270,22 +306,22 @@ def consistent(path, val):
             if v is None:
                 unknown = True
             elif bool(v) != bool(ev.b):
-                return False
+                return False, val
         elif ev.kind == "arm":
             r = pat_accepts(ev.b, ev.a or "", val)
             if r is False:
-                return False
+                return False, val
             if r is None:
                 unknown = True
             for q in ev.c or ():
                 rq = pat_accepts(q, ev.a or "", val)
                 if rq is True:
-                    return False
+                    return False, val
                 if rq is None:
                     unknown = True
         elif ev.kind in ("assign", "let") and ev.a in val:
             unknown = True      # a sampled name is rebound or assigned: the valuation no longer describes it
-    return None if unknown else True
+    return (None if unknown else True), val
 
 
 def int_constants(node):
